@@ -32,7 +32,7 @@ VERIF_DIR = os.path.dirname(os.path.dirname(os.path.abspath(__file__)))
 REPO_DIR = os.environ.get("VERIF_REPO", "/repo")
 REPLAY_DIR = os.path.join(VERIF_DIR, "replays")
 EVIDENCE_DIR = os.path.join(VERIF_DIR, "evidence")
-KNOWN_FINDINGS = os.path.join(VERIF_DIR, "known_findings.json")
+KNOWN_FINDINGS = os.environ.get("VERIF_KNOWN_FINDINGS") or os.path.join(VERIF_DIR, "known_findings.json")
 
 EXIT_OK, EXIT_VIOLATION, EXIT_HARNESS = 0, 1, 2
 
